@@ -168,6 +168,10 @@ for r in RECL_ALL:
     _c17_thorough.append(run("reclaim", "proto_" + r, c=2, opt={"ops": 0x62, "T": 3, "m": 1}, weight=2.0))
 for r in ["hp", "hpd", "he", "hed", "lfrc"]:
     _c17_thorough.append(run("reclaim", "proto_" + r, c=3, opt={"ops": 0x22, "T": 3, "m": 1}, weight=4.0))
+# control block reuse with many guards (dynamic strategies: additional hazard pointer / era blocks re-initialised by the adopting thread; seed C17c)
+for t in ["hpd_k1", "hpd_k2", "hed_k1", "hed_k2", "ebr", "lfrc"]:
+    _c17_quick.append(run("guards", "reuse_" + t, c=0, opt={"gens": 3, "maxn": 5}, weight=0.3))
+    _c17_thorough.append(run("guards", "reuse_" + t, c=0, opt={"gens": 3, "maxn": 9}, weight=1))
 for r in RECL_LAZY:
     _c17_quick.append(run("reclaim", "proto_" + r, c=1, opt={"ops": 0x62, "allow_update_only": 1, "gens": 2, "m": 1, "flush": 80}, weight=0.5))
     _c17_thorough.append(run("reclaim", "proto_" + r, c=2, opt={"ops": 0x6a, "allow_update_only": 1, "gens": 2, "m": 1, "flush": 80}, weight=1.5))
@@ -351,14 +355,18 @@ TITLES["C13"] = "left_right: readers always see one consistent, fully updated in
 PLAN["C13"] = {
     "quick": [run("lr_seqlock", "left_right", c=4), run("lr_seqlock", "left_right", c=2, opt={"readers": 2, "loads": 1, "updates": 2}),
               run("lr_seqlock", "left_right", c=2, opt={"writers": 2, "updates": 1, "readers": 1, "loads": 2}),
-              run("lr_seqlock", "left_right", c=2, mode="wmm", d=1), run("lr_seqlock", "left_right", c=2, variant="tsanv")],
-    "thorough": [run("lr_seqlock", "left_right", c=4, weight=3), run("lr_seqlock", "left_right", c=3, opt={"readers": 2, "loads": 1, "updates": 2}, weight=4),
+              run("lr_seqlock", "left_right", c=2, mode="wmm", d=1), run("lr_seqlock", "left_right", c=2, variant="tsanv"),
+              run("lr_seqlock", "left_right", c=2, opt={"ctor": 1}, weight=0.5), run("lr_seqlock", "left_right", c=2, opt={"ctor": 2}, weight=0.5),
+              run("lr_seqlock", "left_right", c=5, weight=2), run("lr_seqlock", "left_right", c=3, opt={"readers": 2, "loads": 1, "updates": 2}),
+              run("lr_seqlock", "left_right", c=3, opt={"writers": 2, "updates": 1, "readers": 1, "loads": 2}), run("lr_seqlock", "left_right", c=4, opt={"updates": 3, "loads": 3})],
+    "thorough": [run("lr_seqlock", "left_right", c=6, weight=3), run("lr_seqlock", "left_right", c=4, opt={"readers": 2, "loads": 1, "updates": 2}, weight=4),
+                 run("lr_seqlock", "left_right", c=3, opt={"ctor": 1}), run("lr_seqlock", "left_right", c=3, opt={"ctor": 2}),
                  run("lr_seqlock", "left_right", c=2, opt={"writers": 2, "updates": 1, "readers": 2, "loads": 1}, weight=2),
                  run("lr_seqlock", "left_right", c=2, opt={"readers": 3, "loads": 1, "updates": 2}, weight=4),
                  run("lr_seqlock", "left_right", c=3, opt={"updates": 3, "loads": 3}, weight=2),
                  run("lr_seqlock", "left_right", c=2, mode="wmm", d=2, W=64, weight=2), run("lr_seqlock", "left_right", c=3, mode="wmm", d=1, weight=2),
                  run("lr_seqlock", "left_right", c=3, variant="tsanv")],
-    "budget_s": {"quick": 100, "thorough": 700},
+    "budget_s": {"quick": 140, "thorough": 800},
     "rule": "1-2 writers x 1-3 updates (functor increments two plain fields), 1-3 readers x 1-3 reads (functor reads both fields); std::mutex and "
             "std::this_thread::yield are modelled (blocking lock, spin-wait hand-off); oracle: happens-before race detector on the functors' plain accesses (a reader on "
             "the instance being written is a data race on every schedule that overlaps them), a==b in every read, functor applied exactly twice per update, both "
@@ -559,7 +567,9 @@ PLAN["C15"] = {
              [run("guards", "slots_hp_k2", c=0, opt={"depth": 3}), run("guards", "slots_he_k2", c=0, opt={"depth": 3})] +
              # guards that start on different nodes with different slots / eras (seed C15: swap that does not swap the protection)
              [run("guards", t, c=0, opt={"depth": 3, "altfill": 1}, weight=0.5) for t in ["alg_hpd", "alg_hed", "slots_hp_k3", "slots_he_k3", "alg_ebr", "alg_lfrc", "alg_stamp"]] +
-             [run("guards", "snap_" + r, c=2, weight=1) for r in ["hp", "hpd", "he", "qsbr", "ebr", "nebr", "debra", "lfrc"]] + [run("guards", "snap_stamp", c=1)],
+             [run("guards", "snap_" + r, c=2, weight=1) for r in ["hp", "hpd", "he", "qsbr", "ebr", "nebr", "debra", "lfrc"]] + [run("guards", "snap_stamp", c=1)] +
+             # a third cell holds (nullptr, mark 1): guards acquired / constructed / copied from it protect nothing but are not empty (seed C15d, finding F-C18-3)
+             [run("guards", t, c=0, opt={"depth": 3, "nullcell": 1}, weight=0.5) for t in ["alg_hpd", "alg_hed", "alg_qsbr", "alg_ebr", "alg_nebr", "alg_debra", "alg_gebr_lazy", "alg_stamp", "alg_lfrc", "slots_hp_k2", "slots_he_k2"]],
     "thorough": [run("markedptr", "marked_ptr", c=0, plain_horizon=100000000000, wall=1200, opt={"full": 24, "shards": 64}, weight=10),
                  run("markedptr", "marked_ptr", c=0, plain_horizon=1000000000000, wall=2400, opt={"full": 32, "w": 32, "shards": 256}, weight=20)] +
                 [run("guards", "alg_" + r, c=0, opt={"depth": 4}, weight=4 if r == "stamp" else 2) for r in _alg] +
@@ -568,7 +578,9 @@ PLAN["C15"] = {
                 [run("guards", t, c=0, opt={"depth": 4, "altfill": 1}, weight=2) for t in ["slots_hp_k3", "slots_he_k3"]] +
                 [run("guards", "snap_" + r, c=3, opt={"replaces": 2, "acquires": 2}, weight=3) for r in ["hp", "he", "ebr", "qsbr", "lfrc"]] +
                 [run("guards", "snap_" + r, c=2, opt={"replaces": 3, "acquires": 3}, weight=3) for r in ["hp", "ebr", "lfrc", "stamp"]] +
-                [run("guards", "snap_" + r, c=2, mode="wmm", d=1, weight=2) for r in ["hp", "he", "ebr", "qsbr"]],
+                [run("guards", "snap_" + r, c=2, mode="wmm", d=1, weight=2) for r in ["hp", "he", "ebr", "qsbr"]] +
+                [run("guards", t, c=0, opt={"depth": 3, "nullcell": 1, "guards": 3}, weight=3) for t in ["alg_hpd", "alg_hed", "alg_ebr", "alg_nebr", "alg_lfrc", "alg_stamp", "slots_hp_k2", "slots_he_k2", "slots_hp_k1", "slots_he_k1"]] +
+                [run("guards", t, c=0, opt={"depth": 4, "nullcell": 1, "altfill": 1}, weight=3) for t in ["alg_hpd", "alg_hed", "alg_ebr", "alg_debra"]],
     "budget_s": {"quick": 150, "thorough": 2200},
     "rule": "marked_ptr: mark widths 0..32 x MaxUpperMarkBits {0,8,16} x 5 pointer patterns (null, lowest / highest / alternating canonical user address aligned as the width "
             "requires): all 2^w mark values for w <= 14 (quick) / 24 and w = 32 (thorough), boundary families (0, all ones, walking one/zero, 2^k+-1) above; get/mark/bool/==/!= / "
@@ -597,8 +609,18 @@ PLAN["C18"] = {
               run("guards", "slots_he_k1", c=0, opt={"depth": 4, "guards": 2, "fill": 1, "ops": 0x99}), run("guards", "slots_he_k2", c=0, opt={"depth": 4, "guards": 3, "altfill": 1, "ops": 0x99}, weight=2),
               run("guards", "slots_hp_k2", c=0, opt={"depth": 4, "guards": 3, "altfill": 1, "ops": 0x99}),
               # concurrent: acquire_if_equal refused because the source changed between its two loads; the emptied guard must not keep its slot (seed C18b)
-              run("guards", "snap_hp", c=2)],
-    "thorough": [run("guards", "slots_hp_k1", c=0, opt={"depth": 4, "guards": 3}, weight=4), run("guards", "slots_hp_k2", c=0, opt={"depth": 4, "guards": 3}, weight=6),
+              run("guards", "snap_hp", c=2)] +
+             # control block reuse with many guards: generations of threads holding up to 9 guards at once (dynamic: additional blocks are allocated, then
+             # re-initialised by the adopting thread - seeds C18c / C17c), released in three orders with a scan after every release
+             [run("guards", "reuse_" + t, c=0, opt={"gens": 2, "maxn": 9}, weight=0.3) for t in ["hpd_k1", "hpd_k2", "hed_k1", "hed_k2"]] +
+             [run("guards", "reuse_" + t, c=0, opt={"gens": 3}, weight=0.3) for t in ["hp_k3", "he_k3"]] +
+             # a guard holding a marked null pointer must not occupy a slot (finding F-C18-3)
+             [run("guards", t, c=0, opt={"depth": 3, "guards": 2, "nullcell": 1}, weight=0.5) for t in ["slots_hp_k1", "slots_he_k1", "slots_hp_k2", "slots_he_k2"]] +
+             [run("guards", "slots_he_k1", c=0, opt={"depth": 4, "guards": 2, "nullcell": 1, "ops": 0x81}, weight=0.3)],
+    "thorough": [run("guards", "reuse_" + t, c=0, opt={"gens": 3, "maxn": 9}, weight=2) for t in ["hpd_k1", "hpd_k2", "hed_k1", "hed_k2"]] +
+                [run("guards", "reuse_" + t, c=0, opt={"gens": 4}, weight=1) for t in ["hp_k3", "he_k3"]] +
+                [run("guards", t, c=0, opt={"depth": 4, "guards": 2, "nullcell": 1}, weight=3) for t in ["slots_hp_k1", "slots_he_k1", "slots_hp_k2", "slots_he_k2"]] +
+                [run("guards", "slots_hp_k1", c=0, opt={"depth": 4, "guards": 3}, weight=4), run("guards", "slots_hp_k2", c=0, opt={"depth": 4, "guards": 3}, weight=6),
                  run("guards", "slots_hp_k3", c=0, opt={"depth": 4, "guards": 5, "fill": 2, "ops": 0x31b}, weight=6),
                  run("guards", "slots_hp_k5", c=0, opt={"depth": 4, "guards": 7, "fill": 4, "ops": 0x119}, weight=6),
                  run("guards", "slots_he_k1", c=0, opt={"depth": 4, "guards": 3}, weight=4), run("guards", "slots_he_k2", c=0, opt={"depth": 4, "guards": 3}, weight=6),
